@@ -1142,6 +1142,39 @@ func (c *C) funcArgBindings() (map[*ssa.Parameter][]*ssa.Function, map[*ssa.Func
 	for g := range notOnly {
 		delete(c.fabArgOnly, g)
 	}
+	// named functions (and method values) passed as arguments: fetchOrCreate(m, key, NewHash)
+	for _, fn := range c.P.allFuncs(firstPartyPkgs...) {
+		for _, b := range fn.Blocks {
+			for _, in := range b.Instrs {
+				call, ok := in.(*ssa.Call)
+				if !ok {
+					continue
+				}
+				cf := callee(call)
+				if cf == nil || !firstParty(cf) || cf.Blocks == nil {
+					continue
+				}
+				for i, a := range call.Call.Args {
+					if ct, ok := a.(*ssa.ChangeType); ok {
+						a = ct.X
+					}
+					g, ok := a.(*ssa.Function)
+					if !ok || i >= len(cf.Params) {
+						continue
+					}
+					have := false
+					for _, h := range c.fab[cf.Params[i]] {
+						if h == g {
+							have = true
+						}
+					}
+					if !have {
+						c.fab[cf.Params[i]] = append(c.fab[cf.Params[i]], g)
+					}
+				}
+			}
+		}
+	}
 	// a function parameter handed on to another first-party function (ForEach(visit) -> shard.forEach(visit)): the
 	// inner parameter is bound to whatever the outer one is bound to
 	for changed, iter := true, 0; changed && iter < 4; iter++ {
